@@ -34,16 +34,116 @@ ASSUMPTIONS = ["addresses 0x100100-0xFFFFFF (after 24-bit wrap) belong to neithe
                "card-slot addresses beyond the inserted card's size and reads of an absent card are unspecified; "
                "only 'writes are not latched' is demanded there",
                "overlays are not placed inside the RAM mirror window or its target"]
-PROBES = ["straddle_region_edge", "alias_wrap24", "alias_mirror", "rom_write", "readonly_write", "card_absent_write",
+PROBES = ["imem_store", "imem_wide_store", "imem_store_across_device_cell", "straddle_region_edge", "alias_wrap24", "alias_mirror", "rom_write", "readonly_write", "card_absent_write",
           "card_swap", "overlay_add", "overlay_remove", "int_ext_boundary", "imem_access", "wide_access"]
 
 INT0 = 0x100000
 
 
 def batches(tier: str) -> List[Batch]:
+    # py / rs: the memory components driven directly; *-imem: the internal memory as the CPU's own bus reaches it
+    # (generated store instructions executed by the whole machine, all 256 cells read back by the host at every
+    # instruction boundary)
     if tier == "quick":
-        return [Batch("py", "py-mem", 16000, 100), Batch("rs", "rs-mem", 80000, 500)]
-    return [Batch("py", "py-mem", 150000, 200), Batch("rs", "rs-mem", 800000, 500)]
+        return [Batch("py", "py-mem", 16000, 100), Batch("rs", "rs-mem", 80000, 500),
+                Batch("rs-imem", "rs-machine", 6000, 200), Batch("py-imem", "py-machine", 320, 8)]
+    return [Batch("py", "py-mem", 150000, 200), Batch("rs", "rs-mem", 800000, 500),
+            Batch("rs-imem", "rs-machine", 400000, 500), Batch("py-imem", "py-machine", 12000, 20)]
+
+
+# ----------------------------------------------------------------------------------------
+# internal memory through the machine's CPU bus
+
+# cells with device or status semantics on the machine's bus — keyboard ports KOL/KOH/KIL (F0-F2), E-port inputs
+# (F5, F6), UART (F7-FA), interrupt mask/status (FB, FC), SCR/LCC/SSR (FD-FF): a store there is not required to read
+# back.  Judged as memory: the RAM 0x00-0xEF (BP/PX/PY/AMC included) and the E-port output latches EOL/EOH (F3, F4)
+IMEM_DEVICE_CELLS = frozenset([0xF0, 0xF1, 0xF2] + list(range(0xF5, 0x100)))
+# IMR/ISR (0xFB/0xFC) are never stored to: a store there starts interrupt activity, which is C12's subject
+_IMEM_NO_STORE = frozenset([0xFB, 0xFC])
+_IMEM_EDGES = [0x00, 0x01, 0xEB, 0xEC, 0xED, 0xEE, 0xEF, 0xF0, 0xF1, 0xF2, 0xF3, 0xF4, 0xF5, 0xF8, 0xF9, 0xFA, 0xFD, 0xFE,
+               0xFF, 0x7F, 0x80]
+
+
+def _gen_imem(r: Rng, ex: str) -> Dict[str, Any]:
+    from .. import progen
+    code: List[int] = []
+    plan: List[list] = []          # per instruction: None or [offset, [bytes stored]]
+    n = r.choice([6, 12, 24])
+    for _ in range(n):
+        width = r.choice([1, 2, 3, 3])
+        off = r.choice(_IMEM_EDGES) if r.chance(2, 3) else r.below(0x100)
+        if off + width > 0x100:
+            off = 0x100 - width
+        if any((off + i) in _IMEM_NO_STORE for i in range(width)):
+            off = 0xF3 - r.below(8)
+        if r.chance(1, 5) and width == 1:
+            v = r.below(256)
+            code += [0x32, 0xCC, off, v]                             # PRE (n) direct: MV (n), imm8
+            plan.append([off, [v]])
+            continue
+        v = r.below(1 << (8 * width)) | 1
+        if width == 1:
+            code += [0x08, v & 0xFF]                                 # MV A, imm8
+            plan.append(None)
+            code += [0x32, 0xA0, off]                                # MV (n), A
+        elif width == 2:
+            code += [0x0A, v & 0xFF, (v >> 8) & 0xFF]                # MV BA, imm16
+            plan.append(None)
+            code += [0x32, 0xA2, off]                                # MV (n), BA
+        else:
+            v &= 0xFFFFF
+            reg = r.choice([0, 1])
+            code += [0x0C + reg, v & 0xFF, (v >> 8) & 0xFF, (v >> 16) & 0xFF]   # MV X|Y, imm20
+            plan.append(None)
+            code += [0x32, 0xA4 + reg, off]                          # MV (n), X|Y
+        plan.append([off, [(v >> (8 * i)) & 0xFF for i in range(width)]])
+    code += [0x00] * 6
+    base = progen.CODE_BASE
+    prog = {"image": [[base, code]], "rom_tail": [0, 0, 0, base & 0xFF, (base >> 8) & 0xFF, (base >> 16) & 0xFF],
+            "entry": base, "main": base, "handler": base, "code": [base, base + len(code) - 1], "ins": {}, "style": "imem"}
+    return {"kind": "imem", "exec": ex, "prog": prog, "plan": plan,
+            "regs": {"PC": base, "S": progen.S_INIT, "U": progen.U_INIT, "BA": 0, "I": 0, "X": 0, "Y": 0, "F": 0},
+            "imem": [[progen.IMR, 0], [progen.ISR, 0]], "timer": {"enabled": False, "mti": 0, "sti": 0},
+            "kb": {"press": 1, "release": 1, "repeat_delay": 24, "repeat_interval": 6, "active_high": True},
+            "boundaries": len(plan), "ops": [], "watch": [[0x100000, 0x100]], "feat": {}, "faulty": False}
+
+
+def _check_imem(scn: Dict[str, Any], hist: Dict[str, Any]) -> List[Dict[str, Any]]:
+    from .. import machine
+    viols: List[dict] = []
+    probes: Dict[str, int] = {}
+    hist["_probes"] = probes
+    obs = hist["obs"]
+    if not obs:
+        return viols
+    cells = list(obs[0][machine.O_WATCH][0])
+    flagged = set()
+    for k, step in enumerate(scn["plan"]):
+        if k + 1 >= len(obs):
+            break
+        if step is not None:
+            off, data = step
+            for i, b in enumerate(data):
+                cells[off + i] = b
+            probes["imem_store"] = probes.get("imem_store", 0) + 1
+            if len(data) > 1:
+                probes["imem_wide_store"] = probes.get("imem_wide_store", 0) + 1
+            if any((off + i) in IMEM_DEVICE_CELLS for i in range(len(data))) and any(
+                    (off + i) not in IMEM_DEVICE_CELLS for i in range(len(data))):
+                probes["imem_store_across_device_cell"] = probes.get("imem_store_across_device_cell", 0) + 1
+        got = obs[k + 1][machine.O_WATCH][0]
+        for c in range(0x100):
+            if c in IMEM_DEVICE_CELLS:
+                cells[c] = got[c]
+                continue
+            if got[c] != cells[c] and c not in flagged:
+                flagged.add(c)
+                cls = "raw" if step is not None and step[0] <= c < step[0] + len(step[1]) else "bleed"
+                viols.append({"cls": cls, "executor": scn["exec"], "where": {"region": "imem", "level": "machine"},
+                              "msg": f"instruction {k} ({'store ' + hex(step[0]) + ' x' + str(len(step[1])) if step else 'load immediate'}): "
+                                     f"internal cell {c:#04x} reads {got[c]:#04x}, last stored {cells[c]:#04x}", "at": k})
+                cells[c] = got[c]
+    return viols
 
 
 # ----------------------------------------------------------------------------------------
@@ -71,6 +171,10 @@ def _gen_cfg(r: Rng, ex: str) -> Dict[str, Any]:
     if cfg["rom"]:
         rr = r.child("rom")
         cfg["rom_seed"] = rr.choice([0x1234, 0x0BAD, 0x7E57, 0x5EED])
+        if ex == "py-mem":
+            # an image shorter than the 256 KiB window: the window stays read-only, the uncovered part reads the
+            # array underneath (the last 256 bytes of the window are then left alone: recorded IMEM alias)
+            cfg["rom_len"] = rr.choice([None, None, 0x100, 0x8000, 0x20000])
     return cfg
 
 
@@ -97,7 +201,7 @@ class Model:
                               "size": size, "ro": not cfg["card_writable"] if cfg["card"] != "default" else False, "data": {}})
             if cfg["rom"]:
                 self._add_ov({"start": 0xC0000, "end": 0xFFFFF, "name": "internal_rom", "kind": "rom",
-                              "seed": cfg["rom_seed"]})
+                              "seed": cfg["rom_seed"], "len": cfg.get("rom_len")})
         else:
             if cfg["card"] == "absent":
                 self._add_ov({"start": 0x40000, "end": 0x4FFFF, "name": "memory_card_slot", "kind": "absent"})
@@ -155,6 +259,8 @@ class Model:
             for o in self.ov:
                 if o["start"] <= c[1] <= o["end"] and o["kind"] == "card" and c[1] - o["start"] >= o["size"]:
                     return False
+            if self.ex == "py-mem" and self.cfg.get("rom_len") and c[1] >= 0xFFF00:
+                return False
         return True
 
     def read(self, a32: int) -> Optional[int]:
@@ -175,6 +281,8 @@ class Model:
                 off = a - o["start"]
                 return o["data"].get(off, 0) if off < o["size"] else None
             if k == "rom":
+                if o.get("len") and a - o["start"] >= o["len"]:
+                    return self._ext_backing(self._phys(a))      # window not covered by the image
                 return _rom_byte(o["seed"], a)
             if k == "romdata":
                 return o["bytes"][a - o["start"]]
@@ -231,10 +339,15 @@ def _edges(cfg: Dict[str, Any], ex: str) -> List[int]:
                 e += [win + (lo & 0x7FFF) - 1, win + (lo & 0x7FFF), win + (hi & 0x7FFF), win + (hi & 0x7FFF) - 1]
     if isinstance(cfg["card"], int):
         e += [0x40000 + cfg["card"] - 1, 0x40000 + cfg["card"] - 2]
+    if cfg.get("rom_len"):
+        end = 0xC0000 + cfg["rom_len"]
+        e += [end - 2, end - 1, end, end + 1, end + 0x1000, 0xFFEFE, 0xFFEFF]
     return [x for x in e if x >= 0]
 
 
 def generate(batch: str, r: Rng, idx: int, tier: str) -> Dict[str, Any]:
+    if batch.endswith("-imem"):
+        return _gen_imem(r, "rs-machine" if batch.startswith("rs") else "py-machine")
     ex = "py-mem" if batch == "py" else "rs-mem"
     cfg = _gen_cfg(r.child("cfg"), ex)
     model = Model(cfg, ex)
@@ -304,7 +417,8 @@ def generate(batch: str, r: Rng, idx: int, tier: str) -> Dict[str, Any]:
             ops.append(["ld", 0x80000 + (am & 0x7FFF), 8])
         # the other space at the same offset must not move
         if am >= INT0:
-            ops.append(["ld", 0xFFF00 + (am & 0xFF), 8])
+            if ok(0xFFF00 + (am & 0xFF), 1):
+                ops.append(["ld", 0xFFF00 + (am & 0xFF), 8])
             ops.append(["ld", am & 0xFF, 8])
         elif am >= 0xFFF00:
             ops.append(["ld", INT0 + (am & 0xFF), 8])
@@ -369,7 +483,7 @@ def _run_py(scn: Dict[str, Any]) -> List[Any]:
         seed = cfg["rom_seed"]
         if seed not in _ROM_CACHE:
             _ROM_CACHE[seed] = bytes(_rom_byte(seed, a) for a in range(0xC0000, 0x100000))
-        m.load_rom(_ROM_CACHE[seed])
+        m.load_rom(_ROM_CACHE[seed][:cfg["rom_len"]] if cfg.get("rom_len") else _ROM_CACHE[seed])
     if cfg["card"] == "absent":
         m.set_memory_card_present(False)
     elif cfg["card"] != "default":
@@ -412,6 +526,9 @@ def _run_py(scn: Dict[str, Any]) -> List[Any]:
 
 
 def execute(scn: Dict[str, Any]) -> Dict[str, Any]:
+    if scn.get("kind") == "imem":
+        from .. import machine
+        return machine.run_machine(scn)
     if scn["exec"] == "py-mem":
         return {"out": _run_py(scn)}
     setup = _setup_ops_rs(scn["cfg"])
@@ -423,6 +540,8 @@ def execute(scn: Dict[str, Any]) -> Dict[str, Any]:
 
 
 def check(scn: Dict[str, Any], hist: Dict[str, Any]) -> List[Dict[str, Any]]:
+    if scn.get("kind") == "imem":
+        return _check_imem(scn, hist)
     ex = scn["exec"]
     viols: List[dict] = []
     model = Model(scn["cfg"], ex)
@@ -591,6 +710,10 @@ def _force(model: Model, a32: int, v: int) -> None:
 
 def stats(scn: Dict[str, Any], hist: Dict[str, Any]) -> Dict[str, Any]:
     probes = dict(hist.get("_probes") or {})
+    if scn.get("kind") == "imem":
+        return {"nontrivial": bool(probes.get("imem_wide_store")), "sig": digest(scn["prog"]["image"]),
+                "faults": {"imem_store_across_device_cell": probes.get("imem_store_across_device_cell", 0)},
+                "probes": probes, "cycles": 0, "boundaries": len(scn["plan"])}
     nontrivial = bool(probes.get("straddle_region_edge") or probes.get("alias_wrap24") or probes.get("alias_mirror"))
     faults = {k: probes.get(k, 0) for k in ("rom_write", "readonly_write", "card_absent_write", "card_swap", "overlay_add",
                                             "overlay_remove", "alias_wrap24", "alias_mirror", "straddle_region_edge")}
@@ -599,12 +722,24 @@ def stats(scn: Dict[str, Any], hist: Dict[str, Any]) -> Dict[str, Any]:
 
 
 def sample(scn: Dict[str, Any], hist: Dict[str, Any]) -> Dict[str, Any]:
+    if scn.get("kind") == "imem":
+        return {"executor": scn["exec"], "code_hex": " ".join(f"{b:02X}" for b in scn["prog"]["image"][0][1][:48]),
+                "plan": scn["plan"][:10]}
     cfg = dict(scn["cfg"])
     cfg["rom_ov"] = [[s, len(d), n] for s, d, n in cfg["rom_ov"]]
     return {"executor": scn["exec"], "cfg": cfg, "ops": [_fmt(o) for o in scn["ops"][:16]], "results": hist["out"][:16]}
 
 
 def shrink(scn: Dict[str, Any]):
+    if scn.get("kind") == "imem":
+        n = scn["boundaries"]
+        for cut in (n // 2, n - 1):
+            if 1 <= cut < n:
+                c = copy.deepcopy(scn)
+                c["boundaries"] = cut
+                c["plan"] = c["plan"][:cut]
+                yield c
+        return
     ops = scn["ops"]
     n = len(ops)
     for cut in (n // 2, (3 * n) // 4, n - 1):
